@@ -12,7 +12,7 @@ PROPS["C20"] = dict(
          "removed, or in another letter case; chains (a name derived from a derived name) occur; contents empty / random bytes / zero runs / "
          "sizes around 4K, 32K, 64K / at most two files of about 1 MB; filter in {nil, path suffix, keep-only directory component, "
          "exclude directory component, reject all}; recursive flag; source dir spelled as a clean absolute path with or without ONE "
-         "trailing slash; destination absent, empty, or pre-populated with regular files at the relative paths of source files - longer, "
+         "trailing slash (further spellings: see SPELLING below); destination absent, empty, or pre-populated with regular files at the relative paths of source files - longer, "
          "shorter, same length (every byte inverted), COLLIDING (same length, same CRC-32 - the checksum a zip entry records - and, where the last 192 bytes leave room, same Adler-32, yet other bytes: "
          "forged by Gaussian elimination over GF(2) on second-difference byte patterns (+1,-2,+1) or single-bit flips near the end; files of fewer than 5 bytes fall back to the inverted bytes), empty, arbitrary - and with unrelated files; in a third of the cases 1..3 further rounds within the same process into the SAME destination path "
          "string: before each, 0..3 removals under the destination (the whole directory, all its contents, one drawn sub-folder, one drawn file), then source files "
@@ -46,8 +46,23 @@ PROPS["C20"] = dict(
          "unit links: one tree with all of these shapes (two and three names, same and other directory, empty, 70000 bytes read-only, outside, copy, five symbolic links) x filters nil / suffix .dat / suffix .txt / keep-only directory / exclude directory x recursive flag x "
          "one round / three rounds (edits through the second name, first name deleted, target of a symbolic link deleted, a name replaced, a sub-folder of the destination removed) "
          "(classes tree_hardlink_*, tree_copy_*, tree_symlink_*, tree_later_round_file_replaced_by_rename; tree_link_unavailable where the file system refuses os.Link/os.Symlink: the entry is dropped). "
-         "Excluded as outside the documented domain: relative or unclean source paths, "
-         "double slashes, dangling symbolic links (ZipFolder cannot read through them), devices, files that the zipping process cannot open for reading, modes on directories and on files of the destination, the archive placed inside the source dir. "
+         "SPELLING OF THE PATH ARGUMENTS AND ITS ECHO IN THE TREE: the statement is about the tree, the archive and the destination, not about the strings that name them. A case may name a working directory for the library calls "
+         "({BASE} itself: 'src', 'out.zip', 'dest'; an empty directory {BASE}/work: '../src', ...; the directory that holds {BASE}: '<name of BASE>/src' - chdir right before each library call and back right after it, under a mutex, "
+         "the package runs one case at a time) and a spelling per argument: relative to that directory or absolute; for the archive and the destination also './' in front, '/./' or '//' before the last component, a '..' detour through "
+         "a directory next to the object ('outside/../dest'), two leading slashes, and for the destination (absent or present before the call) a trailing '/', '//' or '/.'. The SOURCE directory is spelled absolute or relative, clean, with or without one "
+         "trailing slash: with any other spelling ('./src', 'a/./src', 'a//src', 'a/../src', 'src/.', 'src//', '//abs/src') the unchanged ZipFolder stores wrong entry names, skips every file of a non-recursive call or panics (it cuts len(srcDir) bytes off paths "
+         "that filepath.Walk has cleaned) - probed, reported as a robustness finding, not asserted: the callers and tests of the package only pass clean paths. The filter is judged on the path filepath.Join(source argument, relative path) "
+         "(for an absolute spelling the clean absolute path as before); a file on which the filter answers differently for that path and for the absolute one (a directory filter that matches a component ABOVE the tree) is not judged "
+         "(class tree_filter_differs_...). Echo entries: a tree may hold a directory named like the source directory ('src'), its spelling in the call as a chain of directories ('<name of BASE>/src'), a mirror of its absolute path "
+         "below itself ('backup/<abs path of src>/f.txt', the way backups are laid out), and files whose NAMES contain these strings ('copy-of-src.bak'), bare or with helper-file affixes, in the source directory or a sub-directory, directly or below "
+         "'backup'/'.snapshot'/a drawn folder; their files are regular files of the tree like any other (path and content must come back, also through later rounds and edits). Under a spelled case the scratch directory must hold nothing but "
+         "source, archive, destination (and the harness's own 'outside'/'work') after every round and the working directory {BASE}/work must stay empty (zip:stray-entry). rapid: a third of the trees are spelled (working directory drawn from none/base/work/parent, "
+         "source relative in 3 of 4 of those with a working directory), a quarter hold 1..2 echo entries; unit spellings: one tree with every echo shape x a joint walk through 14 source spellings x 11 archive spellings x 49 destination spellings x 5 filters "
+         "(nil, suffix, keep-only and exclude directory 'src', suffix 'src/f.txt') x recursive flag x destination present/absent x one or two rounds (154 cases, thorough 1078) "
+         "(classes tree_args_spelled, tree_calls_from_working_directory:*, tree_*_spelled*, tree_destination_trailing:*, tree_echo_*, tree_selected_path_contains_the_*_again, tree_selected_file_below_directory_named_like_the_source). "
+         "Violation messages mask the scratch names also where they occur inside tree paths ({BASE}, {BASENAME}, {TMP}). "
+         "Excluded as outside the documented domain: unclean source paths (see above), "
+         "dangling symbolic links (ZipFolder cannot read through them), devices, files that the zipping process cannot open for reading, modes on directories and on files of the destination, the archive placed inside the source dir. "
          "archive case = list of zip entries (name, kind file/dir/symlink mode bits, payload, stored or deflated) written with archive/zip, "
          "optionally with 1..3 corrupted bytes; names from '..', '.', empty and plain segments joined by '/' or '\\\\', up to 8 leading '../', "
          "absolute prefixes ('/', '//', the sandbox root, the destination itself), trailing slash, duplicates and file/dir clashes; the "
@@ -56,7 +71,7 @@ PROPS["C20"] = dict(
          "round that must put a selected file into a folder removed from the destination in between, or a selected file that goes over a destination file of equal length and CRC-32 but other content, or a tree with more selected files than descriptors available during the calls, or a tree with two selected names of one inode, or archive with >= 1 entry "
          "whose cleaned joined name leaves the destination; distinct = FNV hash of the JSON form of the case",
     assumptions=["oracle (a): map relPath->content of the regular files under the destination == the source's regular files for which "
-                 "filter(clean source dir + '/' + relPath) is true (nil filter = all) and, when recursive is false, that sit directly in the "
+                 "filter(clean source dir + '/' + relPath) is true (source dir as spelled in the call, cleaned: for a relative spelling the relative path) (nil filter = all) and, when recursive is false, that sit directly in the "
                  "source dir (a regular file is a name whose inode is a regular file: every hard-linked name counts on its own); directories (empty or not) are not compared; "
                  "relative paths at which the source holds or held a symbolic link are left out of the comparison on both sides; both calls must return nil. When the destination held regular files "
                  "before the extraction (pre-populated, or left by an earlier round and not removed since): every selected file must have exactly the source content afterwards; "
@@ -88,7 +103,7 @@ PROPS["C20"] = dict(
 
 LEVEL_TEXT["C20"] = (
     "Generated-input search with exact oracles: thousands of random directory trees (odd names, sibling names derived from one another by helper-file prefixes and suffixes, hard-linked names, copies and symbolic links, empty, binary and large files, every "
-    "filter kind, both values of the recursive flag, both spellings of the source dir) are zipped, unzipped and compared file by file "
+    "filter kind, both values of the recursive flag, source / archive / destination spelled absolute or relative to a working directory and decorated with './', '//', '/./', '..' detours and trailing slashes, trees that repeat the spelling of their own source directory in directory and file names) are zipped, unzipped and compared file by file "
     "with the selected part of the source, in a third of the cases over several rounds into one destination path with parts of the destination removed in between; every ordered combination of a systematic set of hostile zip entries up to a length bound "
     "plus thousands of random hostile archives are extracted eight levels deep inside a sandbox whose complete state outside the "
     "destination is compared before and after. No counterexample among the cases counted in the evidence; not a proof for other "
